@@ -108,7 +108,10 @@ def stack_depth() -> int:
     non-empty stack at the start of a case is a harness error, never a violation)."""
     from jaxtyping import _storage
 
-    return len(getattr(_storage._shape_storage, "memo_stack", []))
+    try:
+        return len(getattr(_storage._shape_storage, "memo_stack", []))
+    except Exception:
+        return 0
 
 
 def reset_state():
@@ -118,11 +121,16 @@ def reset_state():
     import jaxtyping
     from jaxtyping import _storage
 
-    if hasattr(_storage._shape_storage, "memo_stack"):
-        del _storage._shape_storage.memo_stack[:]
-    for st_, val in ((_storage._treepath_storage, None), (_storage._treeflatten_storage, False)):
+    # (best effort: if the private storage is organised differently in the tree under test, nothing is reset and the checks judge
+    # by behaviour alone)
+    try:
+        if hasattr(_storage._shape_storage, "memo_stack"):
+            del _storage._shape_storage.memo_stack[:]
+    except Exception:
+        pass
+    for name, val in (("_treepath_storage", None), ("_treeflatten_storage", False)):
         try:
-            st_.value = val
+            getattr(_storage, name).value = val
         except Exception:
             pass
     try:
